@@ -7,6 +7,16 @@ ALL = [f"C{i:02d}" for i in range(1, 21)]
 HOOK_COMMITS = subprocess.run(["git", "-C", "/repo", "log", "--format=%h %s", "--grep", "^verif hook"], capture_output=True, text=True).stdout.strip().splitlines()
 
 CHECKS = {
+ "C13": dict(
+   category="exploration", design="DESIGN.md §4 C13",
+   technique="proptest-generated (formatter, options, writer expression, multi-thread workload) cases; oracle = denotation of the writer expression over recording sinks + per-record predicates on the bytes of each individual write call",
+   text="Full/compact/pretty/json formatters with generated options (target, level, thread ids/names, file, line, ansi, timer, span events) write through a generated writer expression (with_max_level, with_min_level, with_filter, and, or_else, BoxMakeWriter, depth <= 3) over three recording sinks while 1-8 threads concurrently run nested spans and events through the real macros, optionally after an event whose Debug impl panics. Each selected sink must see exactly one make_writer_for (with the event's metadata) and exactly one write holding the whole newline-terminated record (one line except pretty), per thread in order; unselected sinks nothing; the record must contain the level, the event's fields and the spans in scope in the documented order, and no text of an aborted record.",
+   note="Field values contain no raw newlines. Concurrency is real threads released by a barrier (no schedule control): only schedule-independent invariants are asserted. Found and fixed F7 (stale buffer after a caught panic)."),
+ "C14": dict(
+   category="exploration", design="DESIGN.md §4 C14",
+   technique="proptest-generated values/options/record histories through Dispatch on static metadata with hostile names; every output line parsed by an own strict RFC 8259 parser (duplicate keys rejected, numbers as text) and compared with a model under the stated type mapping",
+   text="Span/event callsites whose names, targets and field names contain quotes, backslashes, control characters, U+2028 and non-ASCII text are exercised with generated values (all integer widths and extremes, floats incl. NaN/inf/-0.0/subnormals/round-trip-critical values, bools, hostile Unicode strings, bytes, errors, Display/Debug wrappers), all combinations of flatten_event/current_span/span_list/target/level/thread options, span chains of depth 0-3 with 0-4 later record calls before or after entering, and events with or without explicit parents. Every record must be one line, one JSON object with unique keys, carry every event and span field with a faithful value (last write wins) and list the entered spans root to leaf.",
+   note="`spans` is compared with the entered spans (as with_span_list documents), `span` with the event's parent. Reserved-key collisions excluded as in the property. Found and fixed F10 (escaped field names lose later records) and F22 (float drift through serde_json's default parser)."),
  "C11": dict(
    category="exploration", design="DESIGN.md §4 C11",
    technique="grammar-based generation of directive ASTs printed to strings; reference evaluator on the AST (most specific prefix, replace-on-duplicate, span scope with value matchers); differential Targets vs EnvFilter vs reference; Display->parse round trip; span-scope histories",
